@@ -590,7 +590,13 @@ func analyseMarshal(p *Program, kf *KindFacts) {
 					kf.EncZeroImg = img
 				}
 			default:
-				sigs["?sref"] = true
+				// the bytes of the value written out explicitly (shifts, AppendUintN)
+				if ord, src := encodedOrder(srefElems(res)); ord != "" && strings.HasPrefix(src, "v") {
+					kf.MOrder[ord] = true
+					sigs[fmt.Sprintf("u%d%s", wd*8, ord)] = true
+				} else {
+					sigs["?sref"] = true
+				}
 			}
 		default:
 			inner := stripDeref(res)
@@ -751,6 +757,48 @@ func analyseUnmarshal(p *Program, kf *KindFacts) {
 						}
 					}
 					if a.Op == "sref" { // a local copy of buffer bytes: extent counted at the index reads
+					}
+				}
+			}
+		}
+		// integers assembled from shifted bytes (no byte-order helper called)
+		if pa.Outcome == "return" && len(pa.Results) > 0 {
+			seenT := map[*Term]bool{}
+			visitTerm(pa.Results[0], seenT, func(x *Term) {
+				if x.Op == "bin" && (x.Name == "|" || x.Name == "+") {
+					if ord, n := decodedOrder(x, "b"); ord != "" {
+						kf.UOrder[ord] = true
+						if int64(n) > kf.ReadExtent {
+							kf.ReadExtent = int64(n)
+						}
+					}
+				}
+			})
+			scan := func(t *Term) {
+				if t == nil {
+					return
+				}
+				visitTerm(t, seenT, func(x *Term) {
+					if x.Op == "bin" && (x.Name == "|" || x.Name == "+") {
+						if ord, n := decodedOrder(x, "b"); ord != "" {
+							kf.UOrder[ord] = true
+							if int64(n) > kf.ReadExtent {
+								kf.ReadExtent = int64(n)
+							}
+						}
+					}
+				})
+			}
+			for _, cell := range pa.Cells {
+				scan(cell.Val)
+			}
+			for _, cell := range pa.SymCells {
+				scan(cell.Val)
+			}
+			for _, e := range pa.Events {
+				if e.Kind == "store" {
+					for _, a := range e.Args {
+						scan(a)
 					}
 				}
 			}
